@@ -73,6 +73,7 @@ func ipamConcurrentScenariosB(tier string, cloud bool, b map[string]int) []*Scen
 		lb["preempt"]--
 	}
 	sc = append(sc, famLag(cloud, lb)...)
+	sc = append(sc, famRestartOverlap(cloud, b)...)
 	if tier == "thorough" {
 		sc = append(sc, famRecreate(cloud, b, "syncpodips")...)
 		sc = append(sc, famRecreate(cloud, b, "run-new")...)
